@@ -19,6 +19,7 @@ import Cicada.Spec.C10
 import Cicada.Spec.C12
 import Cicada.Spec.C19
 import Cicada.Spec.C13
+import Cicada.Model.FdDriver
 /-!
 `cicada_model` — runs the Lean model (the very definitions the theorems are about) and the
 reference semantics on the cases of the correspondence protocol.
@@ -775,6 +776,10 @@ def answer (stream : String) (f : Array String) : Ans :=
          | none => { a with guard := "0", cls := "outside-statement:exponent-or-literal" })
       | _ => { a with s := "BAD-TREE" }
     else a
+  | "fdsess" =>
+    let r := FdDriver.run (g 7 = "script") ((g 0).toNat?.getD 0) (FdDriver.parseItems (g 1)) (FdDriver.strSet (g 2)) (FdDriver.strSet (g 3))
+      (FdDriver.strSet (g 4)) (FdDriver.strSet (g 5)) (FdDriver.parseFiles (g 6))
+    { m := r.m, s := r.s, guard := if r.cls = "-" then "1" else "0", cls := r.cls }
   | _ => { m := "UNKNOWN-STREAM" }
 
 partial def loop (h : IO.FS.Stream) (out : IO.FS.Stream) : IO Unit := do
